@@ -353,18 +353,21 @@ theorem conv_spec (B : List Nat) (D R C K fr fc sr sc : Nat) (iv fv : List S)
   have hP1 : 1 ≤ D * (fr * fc) := Nat.mul_pos hD (Nat.mul_pos hfr1 hfc1)
   have hW1 : 1 ≤ oR * oC := Nat.mul_pos hoR1 hoC1
   -- run the code
+  have hprm : convParams (B ++ [D, R, C]) [K, D, fr, fc] sr sc = .ok (D, fr, fc, (R - fr) / sr + 1, (C - fc) / sc + 1) := by
+    unfold convParams
+    have d3 : dimFromEnd (B ++ [D, R, C]) 3 = .ok D := by simp [dimFromEnd, getR, pure, Except.pure]
+    have d2 : dimFromEnd (B ++ [D, R, C]) 2 = .ok R := by simp [dimFromEnd, getR, pure, Except.pure]
+    have d1 : dimFromEnd (B ++ [D, R, C]) 1 = .ok C := by simp [dimFromEnd, getR, pure, Except.pure]
+    have f2 : dimFromEnd [K, D, fr, fc] 2 = .ok fr := by simp [dimFromEnd, getR, pure, Except.pure]
+    have f1 : dimFromEnd [K, D, fr, fc] 1 = .ok fc := by simp [dimFromEnd, getR, pure, Except.pure]
+    have e0 : ¬ ((B ++ [D, R, C]).length = 0) := by simp
+    have e3 : (decide ((B ++ [D, R, C]).length ≥ 3) && decide (([K, D, fr, fc] : List Nat).length ≥ 3)) = true := by simp
+    have c1 : (decide (R < fr) || decide (C < fc)) = false := by simp; omega
+    have c2 : (decide (sr = 0) || decide (sc = 0)) = false := by simp; omega
+    simp only [e0, if_false, e3, Bool.not_true, Bool.false_eq_true, d3, d2, d1, f2, f1, c1, c2, bind, Except.bind,
+      pure, Except.pure]
   unfold conv
-  have d3 : dimFromEnd (B ++ [D, R, C]) 3 = .ok D := by simp [dimFromEnd, getR, pure, Except.pure]
-  have d2 : dimFromEnd (B ++ [D, R, C]) 2 = .ok R := by simp [dimFromEnd, getR, pure, Except.pure]
-  have d1 : dimFromEnd (B ++ [D, R, C]) 1 = .ok C := by simp [dimFromEnd, getR, pure, Except.pure]
-  have f2 : dimFromEnd [K, D, fr, fc] 2 = .ok fr := by simp [dimFromEnd, getR, pure, Except.pure]
-  have f1 : dimFromEnd [K, D, fr, fc] 1 = .ok fc := by simp [dimFromEnd, getR, pure, Except.pure]
-  have e0 : ¬ ((B ++ [D, R, C]).length = 0) := by simp
-  have e3 : (decide ((B ++ [D, R, C]).length ≥ 3) && decide (([K, D, fr, fc] : List Nat).length ≥ 3)) = true := by simp
-  have c1 : (decide (R < fr) || decide (C < fc)) = false := by simp; omega
-  have c2 : (decide (sr = 0) || decide (sc = 0)) = false := by simp; omega
-  simp only [e0, if_false, e3, Bool.not_true, Bool.false_eq_true, d3, d2, d1, f2, f1, c1, c2, bind, Except.bind,
-    pure, Except.pure]
+  simp only [hprm, bind, Except.bind]
   rw [unroll_flat B D R C sr sc fr fc iv hposB hD hR hC hleni hfr hfc hfr1 hfc1 hsr hsc, hoR, hoC]
   simp only []
   have dl : dimFromEnd (B ++ [oR * oC, D * (fr * fc)]) 1 = .ok (D * (fr * fc)) := by
